@@ -70,6 +70,18 @@ func renameBase(p *idl.Program, old, neu string) {
 		if f.Base == old {
 			f.Base = neu
 		}
+		// qualified names `old.X` refer to the file only where it is included: a
+		// file that does not include it may have an enum called `old`, whose
+		// values are written `old.VALUE` too
+		includesOld := false
+		for _, inc := range f.Includes {
+			if e := path.Ext(inc.Path); strings.TrimSuffix(path.Base(inc.Path), e) == old {
+				includesOld = true
+			}
+		}
+		if !includesOld {
+			continue
+		}
 		for _, inc := range f.Includes {
 			if e := path.Ext(inc.Path); strings.TrimSuffix(path.Base(inc.Path), e) == old {
 				inc.Path = path.Join(path.Dir(inc.Path), neu+e)
